@@ -88,6 +88,9 @@ func propSpecs() map[string]*PropSpec {
 		SkipKind: func(in Inst, kind, tier string) bool {
 			// the two-independent-values form over nested containers of string-bearing structs needs minutes;
 			// those shapes are covered by premise + rebuild (shared leaves) instead
+			if kind == "direct" && in.Tags["map"] && in.T.K != "map" {
+				return true // a map inside a struct: two independent values need minutes; covered by premise + rebuild
+			}
 			return kind == "direct" && in.Tags["string"] && nestDepth(in.T) >= 3
 		},
 		Filter: func(in Inst, tier string) bool {
